@@ -65,7 +65,9 @@ def run(ctx, info):
     for o in obs:
         j = o["job"]
         if not o["ok"]:
-            if o["error"]["type"] != "ValidationError" and not o["error"]["where"].endswith(("_optimization.py:optimization_step", "_optimization.py:evolve")):
+            plumbing = o["error"]["where"].startswith(("abstract.py:", "helpers.py:get_pool", "harness")) or o["error"]["type"] in ("BrokenProcessPool", "PicklingError") \
+                or "pickle" in o["error"]["msg"].lower()
+            if o["error"]["type"] != "ValidationError" and plumbing:
                 # the pool plumbing itself failed (not a numeric kernel: those are C06's census): every pooled evaluation must contribute one agent
                 ctx.violation(f"pooled:{o['error']['type']}:{o['error']['where']}", f"{j['opt']} ({j['mode']}, {j['workers']} workers, population {j['cfg']['population_size']}): "
                               f"{o['error']['type']} in {o['error']['where']}: {o['error']['msg'][:100]}", {"kind": "job", "job": j})
